@@ -201,15 +201,21 @@ UNIT = {
                       ('no_leak', 'buffer@ =~= pending'),
                       ('ops_only_grow', 'prefix_kept(old(self).ops@, self.ops@)')]}},
      'rewrites': [
-        # R1: ghost history of the operands read since the last operator
-        {'rule': 'R1', 'find': 'let mut buffer = Vec::with_capacity(5);',
-         'replace': 'let mut buffer = Vec::with_capacity(5); let ghost mut pending: Seq<Primitive> = Seq::empty();'},
-        {'rule': 'R1', 'find': 'Ok(obj) => {', 'replace': 'Ok(obj) => { proof { pending = pending.push(obj); }'},
-        # R6 (operand source) + R1: the operator receives every pending operand and the buffer is empty afterwards
-        {'rule': 'R6', 'find': 'match self.add(operator, buffer.drain(..), &mut lexer, resolve) {',
-         'replace': 'let args = Args::drain_all(&mut buffer); '
-                    'proof { assert(args.rest() =~= pending); assert(buffer@.len() == 0); pending = Seq::empty(); } '
-                    'match self.add(operator, args, &mut lexer, resolve) {'},
+        # R1: ghost history of the operands read since the last operator.  All anchors are SHAPES (names / argument
+        # expressions captured); the only fixed name is `buffer` (the loop invariant talks about it).
+        {'rule': 'R1', 'regex': r'let\s+mut\s+buffer\s*(:[^=;]+)?=\s*([^;]*);',
+         'replace': r'let mut buffer \1= \2; let ghost mut pending: Seq<Primitive> = Seq::empty();'},
+        # an operand is "read" when the object parser succeeds -- whatever the code then does with the value
+        {'rule': 'R1', 'regex': r'let\s+(\w+)\s*=\s*parse_with_lexer\(([^;]*)\);',
+         'replace': r'let \1 = parse_with_lexer(\2); proof { if \1 is Ok { pending = pending.push(\1->Ok_0); } }'},
+        # R6 (operand source) + R1: the operator receives every pending operand (`operands_all_handed_over`); from here on
+        # nothing is pending, so `no_leak` demands an empty buffer at the end of the iteration on EVERY path that continues
+        {'rule': 'R6', 'regex': r'self\.add\(\s*([^,()]+?)\s*,\s*buffer\s*\.\s*drain\(\s*\.\.\s*\)\s*,', 'count': '*',
+         'replace': r'self.add(\1, { let args_ = Args::drain_all(&mut buffer); proof { assert(args_.rest() =~= pending); //@L operands_all_handed_over\n pending = Seq::empty(); } args_ },'},
+        {'rule': 'R6', 'regex': r'self\.add\(\s*([^,()]+?)\s*,\s*buffer\s*\.\s*iter\(\)\s*\.\s*cloned\(\)\s*,', 'count': '*',
+         'replace': r'self.add(\1, { let args_ = Args::cloned(&buffer); proof { assert(args_.rest() =~= pending); //@L operands_all_handed_over\n pending = Seq::empty(); } args_ },'},
+        # exactly one hand-over site must have been recognised (else: anchor lost => UNDECIDED)
+        {'rule': 'R6', 'regex': r'let args_ = Args::', 'replace': 'let args_ = Args::', 'count': 1},
         # R7: Ord::cmp on usize
         {'rule': 'R7', 'regex': r'match (lexer\.get_pos\(\))\.cmp\(&(data\.len\(\))\)', 'replace': r'match cmp_usize(\1, \2)'},
      ]},
